@@ -78,44 +78,92 @@ def _const_str(model: SrcModel, mod: Module, expr: ast.expr) -> str:
 PARSE_FUNCS = {COND_MOD: "parse_condition_expression_to_tree", AHB_MOD: "parse_ahb_expression_to_single_requirement_indicator_expressions"}
 
 
+def _sentinel_tree(modname: str):
+    """What the intercepted Lark parser 'returns': a big, deep tree in the shape of the module's real output (long
+    chains of one operator with other operators inside, juxtapositions, packages; three parts for the AHB parser), so that
+    any post-processing of the parse result between `.parse` and `return` has something to act on."""
+    from . import refsem
+    from .evalmodel import ahb_tree, cond_tree, token, tree
+
+    chain = " O ".join(f"[{i}]" for i in range(1, 31)) + " O [31] X [32] O " + " O ".join(f"[{i}] U [{i + 100}]" for i in range(33, 63)) + \
+        " O ([63] X [64])[901] O [5P1..2] O [UB1] O [65][902] O ([66] U [67]) X ([68] O [69])"
+    cond = cond_tree(refsem.parse_condition(chain))
+    if modname == AHB_MOD:
+        return ahb_tree([("mm", "Muss", " " + chain + " "), ("mm", "soll", "[1] U [2]"), ("po", "x", None)])
+    return cond
+
+
 def discover(model: SrcModel, modname: str, fname: Optional[str] = None) -> Dict[str, object]:
     """Abstract run of the module's parse function on an opaque input string with `lark.Lark(...)` and `<parser>.parse`
-    intercepted: which parser objects were constructed (grammar text and options as *evaluated* values - however the
-    module builds them), which one parsed, with which arguments, and whether the function hands back what it returned."""
+    intercepted, over **all paths** of the function: which parser objects were constructed (grammar text and options as
+    *evaluated* values - however the module builds them), which one parsed, with which arguments, and whether the
+    function hands back exactly what the parser returned (structurally; a copy is fine)."""
     from .fdai import Interp
-    from .fdvalues import FuncVal, Obj, Opaque, PyRaise, StrT
+    from .fdvalues import FuncVal, Obj, Opaque, PyRaise, StrT, explore
 
     fname = fname or PARSE_FUNCS[modname]
     fn = model.func(f"{modname}.{fname}")
-    it = Interp(model)
-    parsers: List[Dict[str, object]] = []
-    calls: List[Dict[str, object]] = []
 
-    def make_parser(_it, args, kwargs):
-        idx = len(parsers)
-        parsers.append({"grammar": args[0] if args else kwargs.get("grammar"), "kwargs": {k: v for k, v in kwargs.items() if k != "grammar"}, "extra_args": list(args[1:])})
-        return Opaque(f"larkparser#{idx}", kind="lark.Lark", truthy=True, not_none=True)
+    def shape(v):
+        if isinstance(v, Obj) and v.cls == "lark.Tree":
+            return ("T", v.fields.get("data"), tuple(shape(c) for c in (v.fields.get("children") or [])))
+        if isinstance(v, Obj) and v.cls == "lark.Token":
+            return ("t", v.fields.get("type"), v.fields.get("value"))
+        return repr(v)
 
-    sentinel = Obj("lark.Tree", {"data": "vstat_parse_result", "children": []})
+    def run(ch, concrete=None):
+        it = Interp(model, ch)
+        parsers: List[Dict[str, object]] = []
+        calls: List[Dict[str, object]] = []
+        sentinel = _sentinel_tree(modname)
+        want = shape(sentinel)
 
-    def opaque_call(_it, func, args, kwargs):
-        if func.label.startswith("larkparser#") and func.label.endswith(".parse"):
-            calls.append({"parser": int(func.label[len("larkparser#"):-len(".parse")]), "args": list(args), "kwargs": dict(kwargs)})
-            return sentinel
-        raise Unsupported(f"call of {func.label}")
+        def make_parser(_it, args, kwargs):
+            idx = len(parsers)
+            parsers.append({"grammar": args[0] if args else kwargs.get("grammar"), "kwargs": {k: v for k, v in kwargs.items() if k != "grammar"}, "extra_args": list(args[1:])})
+            return Opaque(f"larkparser#{idx}", kind="lark.Lark", truthy=True, not_none=True)
 
-    it.ext_handlers["lark.Lark"] = make_parser
-    it.ext_handlers["opaque-call"] = opaque_call
-    arg = StrT((Opaque("input"),))
+        def opaque_call(_it, func, args, kwargs):
+            if func.label.startswith("larkparser#") and func.label.endswith(".parse"):
+                calls.append({"parser": int(func.label[len("larkparser#"):-len(".parse")]), "args": list(args), "kwargs": dict(kwargs)})
+                return sentinel
+            raise Unsupported(f"call of {func.label}")
+
+        it.ext_handlers["lark.Lark"] = make_parser
+        it.ext_handlers["opaque-call"] = opaque_call
+        arg = concrete if concrete is not None else StrT((Opaque("input"),))
+        try:
+            res = it.call(FuncVal(fn=fn, module=fn.module), [arg], {}, None, None)
+            raised = None
+        except PyRaise as err:
+            res, raised = None, err.exc.cls
+        good_call = len(calls) == 1 and len(calls[0]["args"]) == 1 and (calls[0]["args"][0] is arg or (concrete is not None and calls[0]["args"][0] == arg)) and not calls[0]["kwargs"]
+        return {"parsers": parsers, "calls": calls, "arg": arg, "raised": raised, "good_call": good_call,
+                "returns_parse_result": raised is None and shape(res) == want,
+                "calls_text": [(repr(c["args"])[:80], sorted(c["kwargs"])) for c in calls]}
+
     try:
-        res = it.call(FuncVal(fn=fn, module=fn.module), [arg], {}, None, None)
-    except PyRaise as err:
-        raise AnalysisError(f"{fn.qualname} raises {err.exc.cls} on a string the Lark parser accepts") from err
-
-    def same(a, b) -> bool:
-        return isinstance(a, Obj) and a.cls == b.cls and a.fields.get("data") == b.fields.get("data") and a.fields.get("children") == b.fields.get("children")
-
-    return {"fn": fn, "arg": arg, "parsers": parsers, "calls": calls, "returns_parse_result": same(res, sentinel), "result": res}
+        paths = [out for _trace, out in explore(run, max_paths=64)]
+    except Unsupported as err:
+        # the function inspects the characters of its argument (length checks, scans ...): decide it on concrete strings instead
+        long_ = " u ".join(f"([{i}] O [{i + 1}] x [{i + 2}])" for i in range(1, 40, 3)) + " X [77] o [78] U [79][901] ∧ [80] ∨ [81]"
+        texts = ["[1] U [2]", "[1]u[2]o[3]", long_, long_.replace(" ", "")] if modname == COND_MOD else \
+            ["Muss [1] U [2]", "muss[1]", "Muss " + long_ + " Soll [2] Kann", "X" + long_.replace(" ", "")]
+        paths = []
+        try:
+            for t in texts:
+                paths.extend(out for _trace, out in explore(lambda ch, t=t: run(ch, t), max_paths=64))
+        except Unsupported as err2:
+            raise Unsupported(f"{fn.qualname}: {err}; on concrete strings: {err2}") from err2
+    if not paths:
+        raise AnalysisError(f"{fn.qualname}: no path of the parse function could be explored")
+    raised = [p["raised"] for p in paths if p["raised"]]
+    if raised and len(raised) == len(paths):
+        raise AnalysisError(f"{fn.qualname} raises {raised[0]} on a string the Lark parser accepts")
+    first = next(p for p in paths if not p["raised"])
+    return {"fn": fn, "arg": first["arg"], "parsers": first["parsers"], "calls": first["calls"], "paths": paths,
+            "good_call": all(p["good_call"] and not p["raised"] for p in paths),
+            "returns_parse_result": all(p["returns_parse_result"] for p in paths)}
 
 
 def load(model: SrcModel, modname: str) -> Grammar:
